@@ -14,7 +14,7 @@ import (
 func init() {
 	register(&Prop{
 		ID:          "C13",
-		Explanation: "Decides the error discipline around the session store: every call site in production code of a store-family operation (SessionStore, persistence.Store, redis Client, Lock, SessionState lock helpers, redislock, go-redis commands, the ticket's save/load/clear function values, and every module function that returns such an error) is enumerated; where the enclosing function returns an error the store error is returned or turned into a non-nil error on every path on which it is not known to be nil (the lock retry loop and the refresh-then-validate policy are the two reviewed, structurally checked exceptions), elsewhere it is examined by a branch on every path; Manager.Save sets the ticket cookie only after saveSession returned nil; SignIn and OAuthCallback redirect only after SaveSession returned nil; the readiness endpoint writes 200 only after VerifyConnection returned nil and that error is passed up unchanged from Client.Ping; every Cipher.Decrypt slices its input only under a dominating length guard for the same bound.",
+		Explanation: "Decides the error discipline around the session store: every call site in production code of a store-family operation (SessionStore, persistence.Store, redis Client, Lock, SessionState lock helpers, redislock, go-redis commands, the ticket's save/load/clear function values, and every module function that returns such an error) is enumerated; where the enclosing function returns an error the store error is returned or turned into a non-nil error on every path on which it is not known to be nil (the lock retry loop and the refresh-then-validate policy are the two reviewed, structurally checked exceptions), elsewhere it is examined by a branch on every path; Manager.Save sets the ticket cookie only after saveSession returned nil; SignIn and OAuthCallback redirect only after SaveSession returned nil; the readiness endpoint writes 200 only after VerifyConnection returned nil and that error is passed up unchanged from Client.Ping; every Cipher.Decrypt slices its input only under a dominating length guard for the same bound. Added during the build: a failed or empty reload under the refresh lock ends the session (R6, shared with C12); sign-out answers success only after the delete succeeded (R7, shared with C11.R1); in store/persistence/encoding/encryption/middleware code a fallible call's pointer result is dereferenced only behind its err==nil edge (R8).",
 		NotDecided:  "fault sequences (lost replies, pairs of faults), behaviour of msgpack/lz4 on corrupt bytes, time-outs.",
 		Run:         runC13,
 	})
@@ -115,6 +115,8 @@ func runC13(c *Ctx) {
 	r.Rule("R3-handlers", "SignIn / OAuthCallback redirect only after SaveSession()==nil", 2)
 	r.Rule("R4-readiness", "readiness 200 only after VerifyConnection()==nil; Ping error passed up unchanged", 2)
 	r.Rule("R6-reload-under-lock", "a failed or empty reload under the refresh lock ends the request's session (shared with C12.R2/R5): refresh only after a successful reload; errors mean no session and a cleared store session", 3)
+	r.Rule("R7-sign-out", "sign-out answers success only after the store delete succeeded (shared with C11.R1)", 2)
+	r.Rule("R8-result-before-errcheck", "in the session stores, persistence, session encoding and encryption code a fallible call's result is dereferenced only behind its err==nil edge (damaged stored data is an error, not a crash)", 8)
 	r.Rule("R5-decrypt-bounds", "every Cipher.Decrypt slices its input only under a length guard for the same bound", 3)
 
 	rule := "R1-error-discipline"
@@ -211,9 +213,19 @@ func runC13(c *Ctx) {
 		})
 	}
 
+	var storeFns []*ssa.Function
+	for _, fn := range c.P.ModFns {
+		pk := prog.Short(prog.FnPkg(fn).Path())
+		if strings.HasPrefix(pk, "pkg/sessions") || pk == "pkg/encryption" || pk == "pkg/apis/sessions" || pk == "pkg/middleware" {
+			storeFns = append(storeFns, fn)
+		}
+	}
+	c.checkErrResults("R8-result-before-errcheck", storeFns)
+
 	if a := c.c12Anchors("R6-reload-under-lock"); a != nil {
 		c.checkRefreshProtocol("R6-reload-under-lock", a)
 		c.checkLoaderClears("R6-reload-under-lock", a)
+		runSignOutRule(c, "R7-sign-out")
 	}
 
 	// ---- R2 ---------------------------------------------------------------------------------
